@@ -105,6 +105,7 @@ func twin(args []string) {
 	out := fs.String("out", "", "twin trace file to write")
 	db := fs.String("db", "memdb", "database backend: memdb|goleveldb")
 	seed := fs.Int64("crashseed", 0, "restart at pseudo-random points derived from this seed (0: never)")
+	fs.IntVar(&real.RestartPct, "crashpct", 0, "probability (percent) of a restart at each eligible point (0: default 12)")
 	fs.Parse(args)
 	if *in == "" || *out == "" {
 		die(2, "twin: -script and -out are required")
